@@ -20,7 +20,7 @@ case "$CMD" in
     ;;
   sync)
     # follow /repo's HEAD (fix commits) and the current harness
-    git -C "$DIR/repo" checkout -q -- . && git -C "$DIR/repo" clean -fdq && git -C "$DIR/repo" checkout -q --detach "$(git -C /repo rev-parse HEAD)"
+    git -C "$DIR/repo" reset -q --hard && git -C "$DIR/repo" clean -fdq && git -C "$DIR/repo" checkout -q --detach "$(git -C /repo rev-parse HEAD)"
     rsync -a --exclude target /verif/harness/ "$DIR/harness/"
     sed -i "s|path = \"/repo\"|path = \"$DIR/repo\"|" "$DIR/harness/Cargo.toml"
     rsync -a --delete /verif/replays /verif/data /verif/KNOWN_FINDINGS.txt "$DIR/home/"
@@ -38,7 +38,8 @@ case "$CMD" in
     exit $CODE
     ;;
   reset)
-    git -C "$DIR/repo" checkout -- . && git -C "$DIR/repo" clean -fdq
+    # (reset --hard: a failed 3-way apply leaves unmerged paths that `checkout -- .` refuses)
+    git -C "$DIR/repo" reset -q --hard && git -C "$DIR/repo" clean -fdq
     ;;
   remove)
     git -C /repo worktree remove --force "$DIR/repo" 2>/dev/null
